@@ -138,7 +138,7 @@ impl Gen {
                 // pairs of fields: cross product of their boundary values (adjacent pairs in the
                 // light depth, all pairs in the full depth) - value-dependent interactions between
                 // neighbours (overlapping bits, swapped order) show up here
-                let pv: Vec<Arc<Vec<Val>>> = k.fields.iter().map(|f| Arc::new(spec::pair_values(f))).collect();
+                let pv: Vec<Arc<Vec<Val>>> = k.fields.iter().map(|f| Arc::new(spec::pair_values(f, depth))).collect();
                 for i in 0..k.fields.len() {
                     if pv[i].is_empty() {
                         continue;
@@ -151,7 +151,6 @@ impl Gen {
                         }
                         // (all pairs in both depths: the light depth used to stop at the next
                         // neighbour; the whole cross product is only ~3x more cases)
-                        let _ = depth;
                         seen_next = true;
                         let n = (pv[i].len() * pv[j].len()) as u64;
                         blocks.push(Block {
@@ -179,7 +178,7 @@ impl Gen {
                             if cap && (ef.name == "H_Mass" || ef.name == "H_TRes") {
                                 Arc::new(vec![])
                             } else {
-                                Arc::new(spec::pair_values(ef))
+                                Arc::new(spec::pair_values(ef, depth))
                             }
                         })
                         .collect();
